@@ -2373,8 +2373,13 @@ impl<'c, 's:'c, 'r, 'm:'c> SpeechRulesWithContext<'c, 's,'m> {
         // report error message with file name
         let speech_manager = self.speech_rules.pref_manager.borrow();
         let file_name = speech_manager.get_rule_file(&self.speech_rules.name);
+        // the missing pattern might belong to a file that was included -- name those also
+        let mut included_files = self.speech_rules.rule_files.paths().iter().skip(1)
+                    .map(|path| path.to_string_lossy().to_string()).collect::<Vec<String>>();
+        included_files.dedup();
+        let included_files = if included_files.is_empty() {String::new()} else {format!(" (or in a file it includes: {})", included_files.join(", "))};
         // FIX: handle error appropriately 
-        bail!("\nNo match found!\nMissing patterns in {} for MathML.\n{}", file_name.to_string_lossy(), mml_to_string(&mathml));
+        bail!("\nNo match found!\nMissing patterns in {}{} for MathML.\n{}", file_name.to_string_lossy(), included_files, mml_to_string(&mathml));
     }
 
     fn find_match<T:TreeOrString<'c, 'm, T>>(&'r mut self, rule_vector: &[Box<SpeechPattern>], mathml: Element<'c>) -> Result<Option<T>> {
